@@ -292,7 +292,7 @@ func (r *Runner) setVarWithIndex(prev expand.Variable, name string, index syntax
 		r.setVar(name, prev)
 		return
 	}
-	k := r.arithm(index)
+	k, _ := r.arithm(index)
 	if k < 0 {
 		// Negative indices count from one past the maximum index.
 		if k += internal.IndexedMax(list, indexes) + 1; k < 0 {
@@ -351,7 +351,7 @@ func (r *Runner) unsetElem(name, sub string) {
 		if expr == nil {
 			return // an empty subscript like `unset 'a[]'` is a no-op
 		}
-		k := r.arithm(expr)
+		k, _ := r.arithm(expr)
 		if k < 0 {
 			// Negative indices count from one past the maximum index.
 			if k += internal.IndexedMax(vr.List, vr.Indexes) + 1; k < 0 {
@@ -512,7 +512,7 @@ func (r *Runner) assignVal(name string, prev expand.Variable, as *syntax.Assign,
 	for _, elem := range elems {
 		if elem.Index != nil {
 			// Index resets our index with a literal value.
-			k := r.arithm(elem.Index)
+			k, _ := r.arithm(elem.Index)
 			if k < 0 {
 				// Negative indices count from one past the maximum index.
 				if k += internal.IndexedMax(list, indexes) + 1; k < 0 {
